@@ -1,4 +1,9 @@
-"""C07 - metadata nodes leave no trace in the markup (metamorphic: with == without)."""
+"""C07 - metadata nodes leave no trace in the markup (metamorphic: with == without).
+
+positions    : every position of one / two metadata nodes in every sibling sequence of length <= 3 over 13 sibling
+               kinds under 7 kinds of parent, three indent / eol settings                      (exhaustive)
+with-without : random layout trees with metadata at generated positions                       (Hypothesis)
+"""
 
 from __future__ import annotations
 
@@ -73,7 +78,7 @@ def case_strategy():
         {
             "tfy": st.one_of(st.just(0), st.just(0), st.integers(1, 10**6)),
             "share": st.one_of(st.just(0), st.integers(1, 10**6)),
-            "roots": gen.layout_forest(newlines=True, meta=3, spaces=True, blank=("", " ", "\n", "\nabc", "\r\nx")).map(gen.number),
+            "roots": gen.layout_forest(newlines=True, meta=3, spaces=True, blank=("", " ", "\n", "\nabc", "\r\nx", "tail\n", "t\r\n", "two\n\n", "sp \n")).map(gen.number),
             "indent": st.integers(0, 4),
             "eol": st.sampled_from(EOLS),
             "pick": st.integers(0, 10**6),
@@ -248,6 +253,75 @@ def _body(case, note):
     note(bool(acc & {"first", "only-children", "between-inline-and-block"}), "same-object-repeated" if memo_w else "", "json-mode" if json_mode else "", *sorted(acc))
 
 
+# ---------------------------------------------------------------- exhaustive positions
+
+import itertools
+
+POS_KINDS = ["block", "inline", "void-block", "void-inline", "text", "text-leading-newline", "text-trailing-newline", "text-trailing-space", "blank", "empty", "html", "html-newline", "repr"]
+POS_PARENTS = ["block", "inline", "pre", "textarea", "list", "void", "script"]
+
+
+def _pos_node(kind):
+    t = {"k": "text", "s": "x"}
+    return {
+        "block": {"k": "tag", "name": "div", "ws": True, "attrs": [], "kids": [t]},
+        "inline": {"k": "tag", "name": "span", "ws": False, "attrs": [], "kids": [t]},
+        "void-block": {"k": "tag", "name": "hr", "ws": True, "attrs": [], "kids": []},
+        "void-inline": {"k": "tag", "name": "br", "ws": False, "attrs": [], "kids": []},
+        "text": t,
+        "text-leading-newline": {"k": "text", "s": "\nabc"},
+        "text-trailing-newline": {"k": "text", "s": "first line\n"},
+        "text-trailing-space": {"k": "text", "s": "sp "},
+        "blank": {"k": "text", "s": " "},
+        "empty": {"k": "text", "s": ""},
+        "html": {"k": "html", "s": "<i>y</i>"},
+        "html-newline": {"k": "html", "s": "\n"},
+        "repr": {"k": "repr", "s": "<u>z</u>"},
+    }[kind]
+
+
+POS_META = [{"k": "meta"}, {"k": "dep", "name": "pd", "version": "1.0", "script": [{"src": "p.js"}], "head": "<pd>"}, {"k": "headc", "kids": [{"k": "text", "s": "phc"}]}]
+
+
+def enum_positions(tier):
+    for parent in POS_PARENTS:
+        for n in range(0, 4):
+            for sibs in itertools.product(POS_KINDS, repeat=n):
+                yield {"parent": parent, "sibs": list(sibs)}
+
+
+def _pos_wrap(parent, kids):
+    if parent == "list":
+        return kids
+    name, ws = {"block": ("section", True), "inline": ("em", False), "pre": ("pre", False), "textarea": ("textarea", False), "void": ("input", False), "script": ("script", True)}[parent]
+    return [{"k": "tag", "name": name, "ws": ws, "attrs": [], "kids": kids}]
+
+
+def body_positions(case, note):
+    """every position of one or two metadata nodes in every sibling sequence of length <= 3 under every kind of parent"""
+    import htmltools as h
+
+    sibs = [_pos_node(k) for k in case["sibs"]]
+    if case["parent"] == "script":
+        sibs = [x for x in sibs if x["k"] in ("text", "html")]
+    bare_roots = _pos_wrap(case["parent"], sibs)
+    bare = h.TagList(*[build(r) for r in bare_roots])
+    settings = [(0, "\n"), (2, "\r\n"), (1, " ")]
+    want = [bare.get_html_string(i, e) for i, e in settings]
+    want_str = str(bare)
+    n = 0
+    for pos in range(len(sibs) + 1):
+        for metas in ([POS_META[pos % 3]], [POS_META[(pos + 1) % 3], POS_META[0]]):
+            kids = sibs[:pos] + metas + sibs[pos:]
+            x = h.TagList(*[build(r) for r in _pos_wrap(case["parent"], kids)])
+            for (i, e), w in zip(settings, want):
+                got = x.get_html_string(i, e)
+                check(got == w, f"metadata at position {pos} of {case['sibs']} under a {case['parent']} parent changes get_html_string({i}, {e!r})", w, got)
+            check(str(x) == want_str and x.render()["html"] == want_str, f"metadata at position {pos} of {case['sibs']} under a {case['parent']} parent changes str() / render()", want_str, str(x))
+            n += 1
+    note(True, "parent:" + case["parent"])
+
+
 RULE = (
     "random layout trees (block/inline/void tags, text with newlines/spaces, HTML(), _repr_html_ objects) with MetadataNode / "
     "HTMLDependency / head_content leaves at generated positions vs. the same tree without them; non-trivial = a metadata node "
@@ -255,6 +329,7 @@ RULE = (
 )
 
 CLAUSES = [
+    Clause("positions", body_positions, source="enum", enum=enum_positions, shards_quick=8, shards_thorough=16, rule="every case"),
     Clause(
         "with-without",
         body,
